@@ -25,6 +25,10 @@ class QueueAnalysis:
         fields = self.adt["variants"][0]["fields"]
         m = [f for f in fields if "DashMap" in f["ty"]]
         t = [f for f in fields if "SegQueue" in f["ty"]]
+        if len(m) > 1 and len([f for f in m if "OrderType" in f["ty"]]) == 1:
+            # side tables next to the order map (bookkeeping keyed by id): the order map is the one storing orders; the
+            # operations on the others still count as map operations in the primitives' tables (and are reported there)
+            m = [f for f in m if "OrderType" in f["ty"]]
         if len(m) != 1 or len(t) != 1:
             raise AnchorError("OrderQueue: expected exactly one DashMap field and one SegQueue field")
         self.map_field, self.ticket_field = m[0], t[0]
